@@ -393,19 +393,21 @@ Definition check_common {X V} (ev : V -> V -> bool) (big : bool) (prof : list X 
 Definition hist_ok {X} (sample : list X) (h : list (N * Z)) : bool :=
   is_nil sample || Nat.eqb (length h) DISTOGRAM_BIN_COUNT.
 
-(* numbers and instants *)
+(* numbers and instants.  [hist] is numpy.histogram of the frame's non-null sample, edges given
+   by bin number (the harness identifies the observed edges with numpy's by their 64 bits); any
+   other sample (the batches of a cut, where only emptiness of the histogram is compared) gets one
+   bin holding the whole mass. *)
 Definition ord_case : Type :=
-  bool * Z * list (option Z) * nat * list (Z * N) * list (list Z * list (N * Z)) * obs Z.
+  bool * Z * list (option Z) * nat * list (Z * N) * list (N * Z) * obs Z.
 
 Definition ord_parts (k : ord_case) :=
-  let '(with_order, scale, c0, rep, hashes, hists, o) := k in
+  let '(with_order, scale, c0, rep, hashes, hist, o) := k in
   let big := negb (Nat.eqb rep 1) in
   let c := expand rep c0 in
   let hash := fun v => assoc Z.eqb v hashes 0%N in
-  (* frames above the batch size: the per-batch histograms matter only through being empty or
-     not (the merged histogram is not compared), so one bin with the whole mass stands in *)
-  let np_hist := fun d => if big then match d with [] => [] | _ => [(0%N, zlen d)] end
-                          else assoc (list_eqb Z.eqb) d hists [] in
+  let whole := nonnull c in
+  let np_hist := fun d => if negb big && list_eqb Z.eqb d whole then hist
+                          else match d with [] => [] | _ => [(0%N, zlen d)] end in
   let prof := profile_num scale hash np_hist with_order in
   let addf := add Z.eqb N dummy_merge in
   (big, c, prof, addf, np_hist, o).
